@@ -27,7 +27,8 @@ class Prop:
     DIGEST_EVERY = 20
     RULE = ("seeded random histories (5-40 ops) on a Child deferring ten attributes (DelegatesTo "
             "and PrototypedFrom in the styles same-name, explicit name, 'prefix*', '*' with "
-            "__prefix__, and two-level chains) to 2-3 candidate delegates: assignments through "
+            "__prefix__, and two-level chains; the deferring traits and __prefix__ declared in the class itself, "
+            "all inherited, or __prefix__ inherited from a mixin) to 2-3 candidate delegates: assignments through "
             "the deferring object (valid and invalid), assignments on any candidate, swapping "
             "the delegate and the chain links, deleting local values, gc, drop of former "
             "delegates, pickle restart; handlers on a generated subset of deferring attributes; "
